@@ -533,6 +533,9 @@ KERNEL = [
     dict(q=NS + '::iteration_allocator::block_end', coq='iteration_block_end'),
 ]
 
+ALWAYS_PROBE = [('alignof', 'foonathan::memory::detail::chunk_base'), ('sizeof', 'foonathan::memory::detail::chunk_base'),
+                ('sizeof', 'foonathan::memory::detail::memory_block_stack::node'), ('alignof', 'max_align_t'), ('sizeof', 'char *')]
+
 HEADER = '''(* GENERATED by /verif/vlib/translate.py from the repository's current working tree -- do not edit.
    One Definition per C++ function; N with explicit wrap-around at the C++ width. *)
 From Coq Require Import NArith Bool.
@@ -612,6 +615,9 @@ def generate(repo, incdir, workdir, targets=None, lib=None):
     docs = ast_dump(repo, incdir, workdir)
     idx = Index(docs)
     g = Gen(idx, targets)
+    # constants the hand-written models refer to are always measured, whether or not the kernel mentions them
+    for kind, t in ALWAYS_PROBE:
+        g.probe(kind, t)
     out = g.translate_all()
     errors = list(g.errors)
     try:
